@@ -23,23 +23,24 @@ class PostOrderIterator(Iterator[Block]):
 
     def __init__(self, block: Block) -> None:
         self.stack = [(block, False)]
-        self.seen = {block}
+        self.seen = set()
 
     def __iter__(self) -> Self:
         return self
 
     def __next__(self) -> Block:
-        if not self.stack:
-            raise StopIteration
-        (block, visited) = self.stack.pop()
-        while not visited:
+        while self.stack:
+            (block, visited) = self.stack.pop()
+            if visited:
+                return block
+            if block in self.seen:
+                # Reached through several edges before being visited
+                continue
+            self.seen.add(block)
             self.stack.append((block, True))
             term = block.last_op
             if isinstance(term, Operation) and term.has_trait(IsTerminator()):
                 self.stack.extend(
                     (x, False) for x in reversed(term.successors) if x not in self.seen
                 )
-                self.seen.update(term.successors)
-            # stack cannot be empty here
-            (block, visited) = self.stack.pop()
-        return block
+        raise StopIteration
